@@ -317,12 +317,14 @@ pub fn gen_lnk(r: &mut Rng, thorough: bool, cx: &mut Ctx) {
     for link in 0..3u64 {
         for k in 0..(if thorough { 12000 } else { 700 }) {
             let long = k % 12 == 4;                        // very long idle periods (hundreds of polls) between bytes / frames of small packets
-            let np = if long { r.range(1, 3) } else { r.range(1, 8) };
-            let gaps: Vec<u64> = if long { if link == 1 { let mut g = vec![0u64; 23]; g[11] = 260; g } else { vec![0, 0, 260] } } else { match k % 6 { 0 => vec![], 1 => vec![1], 2 => vec![0, 0, 2], 3 => (0..r.range(1, 7)).map(|_| r.below(3)).collect(), 4 => vec![0, 0, 0, 0, 0, 0, 0, 5], _ => (0..r.range(1, 12)).map(|_| if r.chance(1, 4) { r.range(1, 4) } else { 0 }).collect() } };
+            let np = if long { r.range(1, 2) } else { r.range(1, 8) };
+            // one long gap (260, 1200, thorough: 70000 'no data yet' answers in a row) or a moderate gap (70) before every byte / frame: retry budgets, idle counters
+            let big = match (k / 12) % 4 { 0 => 260, 1 => 1200, 2 => 70, _ => if thorough { 70000 } else { 1200 } };
+            let gaps: Vec<u64> = if long { if big == 70 { vec![70] } else if link == 1 { let mut g = vec![0u64; 23]; g[11] = big; g } else { vec![0, big, 0, 0, 0, 0] } } else { match k % 6 { 0 => vec![], 1 => vec![1], 2 => vec![0, 0, 2], 3 => (0..r.range(1, 7)).map(|_| r.below(3)).collect(), 4 => vec![0, 0, 0, 0, 0, 0, 0, 5], _ => (0..r.range(1, 12)).map(|_| if r.chance(1, 4) { r.range(1, 4) } else { 0 }).collect() } };
             let mut l = vec![link, gaps.len() as u64]; l.extend(&gaps); l.push(np);
             let mut prevp: Option<Packet> = None;
             for _ in 0..np {
-                let n = if long { r.range(0, 40) as usize } else { match r.below(8) { 0 => r.below(9) as usize, 1 => 8, 2 => 9, 3 => r.range(14, 15) as usize, 4 => r.range(200, 400) as usize, _ => r.range(0, 64) as usize } };
+                let n = if long { r.range(9, 30) as usize } else { match r.below(8) { 0 => r.below(9) as usize, 1 => 8, 2 => 9, 3 => r.range(14, 15) as usize, 4 => r.range(200, 400) as usize, _ => r.range(0, 64) as usize } };
                 let mut p = gen_packet(r, n);
                 // consecutive packets that are identical, or differ only in the error flag, or share the address
                 if let Some(q) = prevp.clone() { match r.below(10) { 0 | 1 => { p = q; } 2 => { p = q; p.is_error = !p.is_error; } 3 => { p.device_address = q.device_address; } _ => {} } }
@@ -360,11 +362,14 @@ pub fn exec_snd(case: &[u64]) -> L {
     let prelude: Option<Packet> = match (p.data.len() as u64 + p.device_address as u64) % 4 {
         0 => None, 1 => Some(p.clone()), 2 => { let mut q = p.clone(); q.is_error = !q.is_error; Some(q) }
         _ => { let mut q = p.clone(); q.data.reverse(); q.data.push(0x5a); Some(q) } };
+    // ... or (marked case: address 0xbeef, 3 payload bytes) a long life: 17 packets of 4096 frames each, 69632 frames (a u16 counter wraps)
+    let heavy = p.device_address == 0xbeef && p.data.len() == 3;
+    let preludes: Vec<Packet> = if heavy { (0..17u8).map(|i| Packet { is_error: i % 2 == 0, device_address: 0x100 + i as u16, data: vec![i; 28672] }).collect() } else { prelude.into_iter().collect() };
     match link {
         0 => {
             let st = Rc::new(RefCell::new(CanSt { accept_all: true, ..Default::default() }));
             let mut tx = Can::new(ross_protocol::interface::can::verif_sim::Can::new(CanDev(st.clone())));
-            if let Some(q) = &prelude { let _ = catch_unwind(AssertUnwindSafe(|| tx.try_send_packet(q))); }
+            for q in preludes.iter() { let _ = catch_unwind(AssertUnwindSafe(|| tx.try_send_packet(q))); st.borrow_mut().tx.clear(); }
             { let mut s = st.borrow_mut(); s.tx.clear(); s.spins = 0; s.accept_all = false; s.ans = ans.iter().map(|x| *x as u8).collect(); }
             let r = catch_unwind(AssertUnwindSafe(|| tx.try_send_packet(&p)));
             o.push(match r { Ok(Ok(())) => 0, Ok(Err(InterfaceError::CanError(CanError::MailboxFull))) => 1, Ok(Err(_)) => 9, Err(pl) => if pl.is::<Hang>() { 4 } else { 5 } });
@@ -374,7 +379,7 @@ pub fn exec_snd(case: &[u64]) -> L {
         1 => {
             let st = Rc::new(RefCell::new(UsartSt { accept_all: true, ..Default::default() }));
             let mut tx = Usart::new(UsartDev(st.clone()));
-            if let Some(q) = &prelude { let _ = catch_unwind(AssertUnwindSafe(|| tx.try_send_packet(q))); }
+            for q in preludes.iter() { let _ = catch_unwind(AssertUnwindSafe(|| tx.try_send_packet(q))); st.borrow_mut().tx.clear(); }
             { let mut s = st.borrow_mut(); s.tx.clear(); s.spins = 0; s.accept_all = false; s.ans = ans.iter().map(|x| *x as u8).collect(); }
             let r = catch_unwind(AssertUnwindSafe(|| tx.try_send_packet(&p)));
             o.push(match r { Ok(Ok(())) => 0, Ok(Err(_)) => 9, Err(pl) => if pl.is::<Hang>() { 4 } else { 5 } });
@@ -383,7 +388,7 @@ pub fn exec_snd(case: &[u64]) -> L {
         _ => {
             let st = Arc::new(Mutex::new(SerSt { flush_ok: true, ..Default::default() }));
             let mut tx = Serial::new(Box::new(SerDev(st.clone())));
-            if let Some(q) = &prelude { let _ = catch_unwind(AssertUnwindSafe(|| tx.try_send_packet(q))); }
+            for q in preludes.iter() { let _ = catch_unwind(AssertUnwindSafe(|| tx.try_send_packet(q))); st.lock().unwrap().tx.clear(); }
             { let mut s = st.lock().unwrap(); s.tx.clear(); s.spins = 0; s.flush_ok = false; s.flush_kind = flush_kind; s.ans = ans.iter().map(|x| *x as u32).collect(); }
             let r = catch_unwind(AssertUnwindSafe(|| tx.try_send_packet(&p)));
             o.push(match r {
@@ -442,5 +447,7 @@ pub fn gen_snd(r: &mut Rng, thorough: bool, cx: &mut Ctx) {
             emit_snd(cx, link, &p, flush, &ans);
         }
         if thorough { for &n in &[28672usize, 28666, 1792] { let p = gen_packet(r, n); emit_snd(cx, link, &p, 1, &[]); } }
+        // the marked case: the sender object has already sent 69632 frames (see exec_snd)
+        { let p = Packet { is_error: false, device_address: 0xbeef, data: vec![1, 2, 3] }; let ans: Vec<u64> = if link == 2 { vec![] } else { vec![0; 40] }; emit_snd(cx, link, &p, 1, &ans); }
     }
 }
